@@ -21,6 +21,7 @@ import (
 	"path/filepath"
 	"sort"
 	"strings"
+	"time"
 
 	"github.com/martian-lang/martian/martian/syntax"
 	"github.com/martian-lang/martian/martian/util"
@@ -85,6 +86,11 @@ func c19ChildMain() {
 				}()
 				resp.Enc = c19Encode(edited)
 				resp.NoSplit = c19MapCallWithoutSplit(edited)
+				var parser syntax.Parser
+				if before, err := parser.UncheckedParse([]byte(req.Src), req.Path); err == nil &&
+					c19SplitCalls(edited) < c19SplitCalls(before)-c19RemovedCalls(before, edited) {
+					resp.NoSplit = true
+				}
 			}()
 		}
 		b, _ := json.Marshal(resp)
@@ -246,8 +252,9 @@ func c19InputUsed(p *syntax.Pipeline, in string) bool {
 	return false
 }
 
-// c19OutputUse: "" unused; otherwise how it is used.
+// c19OutputUse: "" unused; otherwise how it is used ("whole-call" wins).
 func c19OutputUse(ast *syntax.Ast, callable, out string) string {
+	use := ""
 	for _, p := range ast.Pipelines {
 		for _, r := range c19PipeRefs(p) {
 			if r.Kind != syntax.KindCall {
@@ -266,11 +273,11 @@ func c19OutputUse(ast *syntax.Ast, callable, out string) string {
 				return "whole-call"
 			}
 			if c19Head(r.OutputId) == out {
-				return "ref"
+				use = "ref"
 			}
 		}
 	}
-	return ""
+	return use
 }
 
 func c19HasWildcard(b *syntax.BindStms) bool {
@@ -296,6 +303,10 @@ func c19Tag(ast *syntax.Ast, e c19Edit) string {
 			for _, c := range p.Calls {
 				if !c19HasWildcard(c.Bindings) {
 					continue
+				}
+				if e.Op == "renameInput" && (c.DecId == e.Callable || p.Id == e.Callable) {
+					// the new name may be captured by (or escape from) the wildcard
+					tags = append(tags, "wildcard-in-scope")
 				}
 				if c.DecId == e.Callable {
 					// is the param supplied by the wildcard?
@@ -450,6 +461,80 @@ func c19MapCallWithoutSplit(ast *syntax.Ast) bool {
 	return false
 }
 
+// c19SplitCalls counts the calls that have at least one split binding.
+func c19SplitCalls(ast *syntax.Ast) int {
+	n := 0
+	if ast.Call != nil && ast.Call.Bindings != nil {
+		for _, b := range ast.Call.Bindings.List {
+			if _, ok := b.Exp.(*syntax.SplitExp); ok {
+				n++
+				break
+			}
+		}
+	}
+	for _, p := range ast.Pipelines {
+		for _, c := range p.Calls {
+			if c.Bindings == nil {
+				continue
+			}
+			for _, b := range c.Bindings.List {
+				if _, ok := b.Exp.(*syntax.SplitExp); ok {
+					n++
+					break
+				}
+			}
+		}
+	}
+	return n
+}
+
+// c19RemovedCalls: how many calls with a split binding disappeared entirely.
+func c19RemovedCalls(before, after *syntax.Ast) int {
+	have := map[string]bool{}
+	for _, p := range after.Pipelines {
+		for _, c := range p.Calls {
+			have[p.Id+"."+c.Id] = true
+		}
+	}
+	n := 0
+	for _, p := range before.Pipelines {
+		for _, c := range p.Calls {
+			if have[p.Id+"."+c.Id] || c.Bindings == nil {
+				continue
+			}
+			for _, b := range c.Bindings.List {
+				if _, ok := b.Exp.(*syntax.SplitExp); ok {
+					n++
+					break
+				}
+			}
+		}
+	}
+	return n
+}
+
+// c19Family maps a failure to the key used for known-findings matching: the
+// documented defect families get one key each, anything else keeps its
+// specific key (and fails the run).
+func c19Family(op, what, tag string) string {
+	has := func(s string) bool { return strings.Contains(tag, s) }
+	switch {
+	case what == "refactor-crash" || what == "refactor-panic":
+		return "C19:" + op + ":" + what + ":" + tag
+	case strings.HasPrefix(op, "rename") && strings.HasPrefix(what, "roundtrip") && has("new-name-is-an-alias-of-a-call-to-it"):
+		return "C19:rename-to-own-alias-not-reversible"
+	case has("leaves-map-call-without-split"):
+		return "C19:removal-leaves-map-call-without-split"
+	case has("whole-call-struct-ref") || has("callable-used-as-type"):
+		return "C19:callable-outputs-used-as-struct"
+	case has("wildcard"):
+		return "C19:wildcard-binding-not-adjusted"
+	case strings.HasPrefix(op, "remove") && what == "compile-UnusedInputError":
+		return "C19:removal-leaves-unused-pipeline-input"
+	}
+	return "C19:" + op + ":" + what + ":" + tag
+}
+
 func c19ErrKind(err error) string {
 	s := err.Error()
 	if strings.HasPrefix(s, "PANIC") {
@@ -457,6 +542,9 @@ func c19ErrKind(err error) string {
 	}
 	if strings.HasPrefix(s, "CRASH") {
 		return "crash"
+	}
+	if strings.Contains(s, "NoSuchOutputError") {
+		return "NoSuchOutputError"
 	}
 	for _, w := range strings.FieldsFunc(s, func(r rune) bool {
 		return !(r >= 'A' && r <= 'Z' || r >= 'a' && r <= 'z')
@@ -623,7 +711,7 @@ func c19Check(cs *c19Case, base *c19Compiled, baseGraph *c19Node, pl c19Planned,
 	e := pl.Edit
 	tag := c19Tag(base.Ast, e)
 	fail := func(kind, what, detail string) c19Outcome {
-		return c19Outcome{Kind: kind, Key: "C19:" + e.Op + ":" + what + ":" + tag, What: detail}
+		return c19Outcome{Kind: kind, Key: c19Family(e.Op, what, tag), What: "[" + e.Op + ":" + what + ":" + tag + "] " + detail}
 	}
 	resp := c19W.apply(cs.Src, cs.Path, e)
 	if resp.Err != "" {
@@ -666,7 +754,9 @@ func c19Check(cs *c19Case, base *c19Compiled, baseGraph *c19Node, pl c19Planned,
 		case "renameCallable", "renameInput", "renameOutput":
 			diff = c19CompareRenamed(baseGraph, ag, e)
 		case "removeInput":
-			diff = c19CompareRemoved(baseGraph, ag, &c19Removal{inOf: map[string]map[string]bool{e.Callable: {e.Param: true}}, anyPipeIn: true})
+			// a stage that loses its only split-dependent input is no longer forked:
+			// fork roots and the merge structure of enclosing outputs legitimately change
+			diff = c19CompareRemoved(baseGraph, ag, &c19Removal{inOf: map[string]map[string]bool{e.Callable: {e.Param: true}}, anyPipeIn: true, ignoreForks: true})
 		case "removeOutput":
 			diff = c19CompareRemoved(baseGraph, ag, &c19Removal{outOf: map[string]map[string]bool{e.Callable: {e.Param: true}}, anyPipeIn: true})
 		case "removeUnused":
@@ -952,6 +1042,7 @@ func runC19(c *Ctx) {
 	}
 	freshN := 0
 	reported := map[string]int{}
+	var shrinkTime time.Duration
 	for _, cs := range cases {
 		f, err := c19Format(cs.Src, cs.Path)
 		if err != nil {
@@ -976,6 +1067,12 @@ func runC19(c *Ctx) {
 			r.hist("program:no-top-call")
 		}
 		plan := c19Enumerate(base.Ast, func() string { freshN++; return fmt.Sprintf("ZZ_NEW%d", freshN) })
+		if !c.Thorough && len(plan) > 60 {
+			// quick tier: a PRNG sample of the edits of big programs (thorough: all)
+			c.Rng.Shuffle(len(plan), func(i, j int) { plan[i], plan[j] = plan[j], plan[i] })
+			plan = plan[:60]
+			r.hist("program:edits-sampled(quick)")
+		}
 		var modelOuts []string
 		if c.Drv != nil {
 			var parser syntax.Parser
@@ -1060,7 +1157,12 @@ func runC19(c *Ctx) {
 			if reported[o.Key] > 2 {
 				continue
 			}
-			small := c19Shrink(c, cs, pl, o.Key)
+			small := cs
+			if reported[o.Key] == 1 && os.Getenv("C19_NOSHRINK") == "" {
+				t0 := time.Now()
+				small = c19Shrink(c, cs, pl, o.Key)
+				shrinkTime += time.Since(t0)
+			}
 			v := Violation{Kind: o.Kind, Key: o.Key, What: o.What,
 				Input: c19Replay{Program: small.Src, Edit: pl.Edit, Note: "found in " + cs.Name + "; replay: write program to a .mro file and run `mro edit` with the flags corresponding to the edit (or VERIF corpus: drop it in corpus/C19/)"},
 				Impl:  o.Impl, Model: o.Model}
@@ -1088,5 +1190,5 @@ func runC19(c *Ctx) {
 			r.violate(v)
 		}
 	}
-	r.note("programs: %d (generated %d, rejected by the compiler %d)", len(cases), made, rejected)
+	r.note("programs: %d (generated %d, rejected by the compiler %d); time spent shrinking failing inputs: %.1fs; child restarts after a crash: %d", len(cases), made, rejected, shrinkTime.Seconds(), c19W.deaths)
 }
